@@ -118,6 +118,9 @@ func init() {
 						}
 						break
 					}
+					if r.P(1, 4) {
+						c.Count("rings_closed_by_a_zero_of_the_other_sign", int64(zeroSpelledClosure(r, g)))
+					}
 					want := refmodel.Norm(refmodel.Copy(g))
 					var text string
 					if pv, st := h.Catch(func() { text = wkt.MarshalString(g) }); pv != nil {
@@ -262,6 +265,36 @@ func init() {
 					}
 					c.Count("parses_run_concurrently", 8*150)
 					c.Nontrivial(c.CaseHash())
+				},
+			},
+			{
+				// "collections nested to any depth": more than ten thousand collections open at one place (where encoding/json
+				// gives up; the writer produces the text and the parser has no such limit - each level costs a scan of the
+				// remaining text, about a second per parse here)
+				Name: "collections-nested-beyond-ten-thousand", Count: h.Fixed(2, 24), BudgetSec: 240,
+				Run: func(c *h.Ctx, idx uint64, r *h.Rand) {
+					depth := []int{10001, 10240, 10002, 12000}[idx%4]
+					var g orb.Geometry = orb.Point{float64(r.Range(-90, 90)), r.Float64()}
+					if r.Bool() {
+						g = orb.LineString{{1, 2}, {r.Float64(), 4}}
+					}
+					for i := 0; i < depth; i++ {
+						g = orb.Collection{g}
+					}
+					text := wkt.MarshalString(g)
+					var got orb.Geometry
+					var err error
+					if r.Bool() {
+						got, err = wkt.Unmarshal(text)
+					} else {
+						got, err = wkt.UnmarshalCollection(text)
+					}
+					c.Eval()
+					if err != nil || !refmodel.EqualBits(got, g) {
+						c.Fail("", "parsing the produced text of a deeply nested collection failed or gives a different geometry", map[string]interface{}{"collections_open_at_one_place": depth, "err": sv(err)})
+					}
+					c.Max("collections open at one place", float64(depth), nil)
+					c.Nontrivial(h.Mix(uint64(depth), refmodel.Hash(g)))
 				},
 			},
 		},
